@@ -290,7 +290,14 @@ class Interp:
             if bm is not None and (has_sym(args) or has_sym(getattr(f, '__self__', None), 2) or
                                    any(isinstance(v, InterpFunction) for v in kwargs.values())):
                 return self.native(lambda *a, **k: bm(self, f.__self__, *a, **k), args, kwargs)
-            return self.native(f, args, kwargs)
+            try:
+                return self.native(f, args, kwargs)
+            except PyExc as e:
+                # a C function that rejects the engine's symbolic value objects did not reject the program's value:
+                # the interpreted code must not see (and possibly catch) that TypeError
+                if isinstance(e.exc, TypeError) and (has_sym(args, 2) or has_sym(list(kwargs.values()), 2)):
+                    raise SymbolicEscape(f'{getattr(f, "__name__", f)}() has no model for a symbolic argument ({e.exc})')
+                raise
         if hasattr(type(f), '__call__') and not isinstance(f, type):
             call = type(f).__call__
             if isinstance(call, types.FunctionType):
